@@ -7,12 +7,13 @@ import Driver.Cookie
 import Driver.Parser
 import Driver.Router
 import Driver.Promise
+import Driver.Queue
 
 open Drv
 
 def dispatch (line : String) : String :=
   let ws := words line
-  let ops : List (List String → Option String) := [base64Op, mimeOp, netOp, headersOp, cookieOp, parserOp, routerOp, promiseOp]
+  let ops : List (List String → Option String) := [base64Op, mimeOp, netOp, headersOp, cookieOp, parserOp, routerOp, promiseOp, queueOp]
   match ops.findSome? (fun f => f ws) with
   | some r => r
   | none => "bad-op"
